@@ -50,6 +50,9 @@ pub struct Unary { pub variant: UnaryVariant }
 pub struct Return { pub span: Span, pub expr: Box<Expr> }
 pub struct Abort { pub span: Span, pub message: Option<Box<Expr>> }
 pub struct Block { pub inner: Vec<Expr>, pub new_scope: bool }
+impl Block {
+    pub fn exprs(&self) -> (r: &Vec<Expr>) ensures *r == self.inner { &self.inner }
+}
 pub struct Predicate { pub inner: Block }
 pub struct Group { pub inner: Box<Expr> }
 pub struct Array { pub inner: Vec<Expr> }
